@@ -236,6 +236,12 @@ func CheckC03(c *Ctx) {
 				w.Count("packed-corner-objects")
 			})
 		}
+		// pairs of objects whose packed bytes collide under a common 32-bit hash (collide.go), scored back to back
+		objCollisionPairs(c, api, func(w *Worker, a spec.Assign, i int) {
+			if o, steps := buildOrViolate(c, w, api, a, HParseCanonical); o != nil {
+				v3Check(c, w, api, m, o, a, steps, nil)
+			}
+		})
 		// (2b) COMPLETE: every assignment with at most 3 (thorough: 4) optional metrics defined x all their values
 		{
 			subsets := gen.SparseSubsets(v, c.Pick(3, 4))
@@ -399,6 +405,8 @@ func CheckC05(c *Ctx) {
 			check(w, list[i], st, i+1)
 		}
 	})
+	// pairs of objects whose packed bytes collide under a common 32-bit hash (collide.go), scored back to back
+	objCollisionPairs(c, api, func(w *Worker, a spec.Assign, i int) { check(w, a, HParseCanonical, -1) })
 	c.Extra["minimum_result_tenths"] = minTenth.Load()
 	c.Extra["space_size"] = total
 	c.SetReport(Report{
@@ -622,6 +630,8 @@ func CheckC04(c *Ctx) {
 			w.Count("packed-corner-objects")
 		})
 	}
+	// pairs of objects whose packed bytes collide under a common 32-bit hash (collide.go), scored back to back
+	objCollisionPairs(c, api, func(w *Worker, a spec.Assign, i int) { v4Check(c, w, api, a, HParseCanonical, stats, false) })
 	{
 		subsets := gen.SparseSubsets(api.Ver, c.Pick(3, 4))
 		c.Parallel("at-most-k-defined", len(subsets), 1, func(w *Worker, i int) {
